@@ -211,7 +211,9 @@ def copy_discipline(ctx):
 def preserve(ctx):
     cases = [(AT, 'Atoms.extend', {'self', 'value'}), (SYS, 'System.atoms_extend', {'self', 'value'}), (AT, 'Atoms.__getitem__', {'self'}), (AT, 'Atoms.__deepcopy__', {'self'}),
              (AT, 'Atoms.df', {'self'}), (SYS, 'System.atoms_df', {'self'}), (SYS, 'System._AtomsIndexer.__getitem__', {'self'}), (SYS, 'System.supersize', {'self'}),
-             (SYS, 'System.rotate', {'self'})]
+             (SYS, 'System.rotate', {'self'}),
+             # scaled reads hand the stored coordinates (or a view of them) to the cell's converters
+             ('atomman/core/Box.py', 'Box.position_cartesian_to_relative', {'cartpos'}), ('atomman/core/Box.py', 'Box.position_relative_to_cartesian', {'relpos'})]
     n = 0
     for rel, q, params in cases:
         fn = ctx.fn(rel, q)
@@ -224,7 +226,7 @@ def preserve(ctx):
         n += 1
         ctx.ob('PRESERVE', '%s::%s' % (rel, q), 'the operation does not write to its operand(s) %s' % sorted(params), not muts,
                '; '.join('%s at line %d' % (w, nd.lineno) for nd, r, w in muts), node=muts[0][0] if muts else fn, key='preserve ' + q)
-    ctx.floor('PRESERVE', n, 9)
+    ctx.floor('PRESERVE', n, 11)
 
 
 def _benign_local(m, fn):
